@@ -353,8 +353,9 @@ class BuiltinMixin:
             if l.items is not None:
                 return ListV(list(reversed(l.items)))
             raise Unsupported("reversed of symbolic list")
-        if name == "set":
+        if name in ("set", "frozenset"):
             out = SetV({})
+            out.frozen = (name == "frozenset")
             if args:
                 src = self.as_list(args[0], fr)
                 if src.items is None:
@@ -522,6 +523,22 @@ class BuiltinMixin:
             if name == "decode":
                 raise Unsupported("bytes.decode")
         if isinstance(recv, SetV):
+            if getattr(recv, "frozen", False) and name in ("add", "update", "difference_update", "discard", "remove", "clear", "pop"):
+                raise Unsupported("mutator %s on a frozenset (AttributeError in Python)" % name)
+            if name in ("difference", "union"):
+                # non-mutating: a new set of the receiver's kind
+                out = SetV(recv.d)
+                out.frozen = getattr(recv, "frozen", False)
+                for a in args:
+                    src = self.as_list(a, fr)
+                    if src.items is None:
+                        raise Unsupported("set.%s with a symbolic-length iterable" % name)
+                    for x in src.items:
+                        if name == "union":
+                            self.dict_store(fr, out, x, True)
+                        else:
+                            self.dict_remove(fr, out, x, must_exist=False)
+                return out
             if name == "add":
                 self.log_write(recv, "*")
                 self.dict_store(fr, recv, args[0], True)
@@ -545,7 +562,9 @@ class BuiltinMixin:
                         self.dict_remove(fr, recv, x, must_exist=(name == "remove"))
                 return None
             if name == "copy":
-                return SetV(recv.d)
+                out = SetV(recv.d)
+                out.frozen = getattr(recv, "frozen", False)
+                return out
         if isinstance(recv, DictV):
             if name == "keys":
                 # a view: membership tests go to the dict itself; iteration / len see the keys
